@@ -9,7 +9,7 @@
 (***************************************************************************)
 EXTENDS Integers, Sequences, FiniteSets, TLC
 
-CONSTANTS Steps, Stride, NAtoms,
+CONSTANTS Steps, Stride, N1, N2,   \* N1, N2: atoms of the two molecules of the batch
           SeedMode,     \* "first": manual_seed before anything else (as coded); "late": after initialize (mutant)
           UserVelMode   \* "asis" (design / fixed code) ; "strip" (rigid-body components removed, as shipped before the fix)
 
@@ -28,7 +28,7 @@ Init ==
     /\ pc = "seed" /\ i = 0
     /\ rng = [origin |-> "hist", draws |-> cfg.prior]     \* process RNG: some history, `prior` variates consumed
     /\ vel = [prov |-> IF cfg.velsrc = "user" THEN "user" ELSE "none", touched |-> FALSE]
-    /\ dof = -1 /\ comlog = << >>
+    /\ dof = << >> /\ comlog = << >>
 
 \* run(): seed != None => torch.manual_seed(seed)
 SetSeed ==
@@ -36,11 +36,14 @@ SetSeed ==
     /\ rng' = IF cfg.seed # "none" /\ SeedMode = "first" THEN [origin |-> cfg.seed, draws |-> 0] ELSE rng
     /\ pc' = "dof" /\ UNCHANGED <<cfg, i, vel, dof, comlog>>
 \* initialize(): constraints by COM mode, engine-specific set_dof
-Constraints == CASE cfg.com = "none" -> 0 [] cfg.com = "linear" -> 3 [] cfg.com = "angular" -> 6
-DofOf(e) == CASE e = "basic" -> 3 * NAtoms - Constraints
-              [] e = "langevin" -> 3 * NAtoms                 \* thermostat feeds all 3N
-              [] e = "xl" -> 3 * NAtoms - Constraints
-              [] e = "xl_damped" -> 3 * NAtoms
+\* rotations removed with the angular momentum: 3 in general, 2 for a diatomic (always linear), none for an atom
+Rot(n) == IF n > 2 THEN 3 ELSE IF n = 2 THEN 2 ELSE 0
+Constraints(n) == CASE cfg.com = "none" -> 0 [] cfg.com = "linear" -> 3 [] cfg.com = "angular" -> 3 + Rot(n)
+DofOne(e, n) == CASE e = "basic" -> 3 * n - Constraints(n)
+              [] e = "langevin" -> 3 * n                 \* thermostat feeds all 3N
+              [] e = "xl" -> 3 * n - Constraints(n)
+              [] e = "xl_damped" -> 3 * n
+DofOf(e) == <<DofOne(e, N1), DofOne(e, N2)>>
 SetDof == /\ pc = "dof" /\ dof' = DofOf(cfg.engine) /\ pc' = "vel" /\ UNCHANGED <<cfg, i, rng, vel, comlog>>
 \* initialize_velocity(): three branches
 InitVel ==
@@ -77,4 +80,6 @@ UserVelUntouched == (pc \in {"loop", "done"} /\ vel.prov = "user") => ~vel.touch
 ComSchedule == pc = "done" =>
     comlog = (IF cfg.com = "none" THEN << >> ELSE [k \in 1..((Steps + Stride - 1) \div Stride) |-> (k - 1) * Stride])
 DofSet == pc \in {"vel", "loop", "done"} => dof = DofOf(cfg.engine)
+\* a molecule that can move at all keeps at least one degree of freedom to carry the temperature
+DofPositive == pc \in {"vel", "loop", "done"} => \A m \in 1..2 : (<<N1, N2>>[m] > 1) => dof[m] > 0
 =============================================================================
